@@ -341,7 +341,7 @@ func build(s *pktSpec, rng *rand.Rand) []byte {
 		var unk *slayers.EndToEndOption
 		if s.ext == "optBefore" || s.ext == "optAfter" {
 			// an option of a type nobody knows (not padding, authenticator or receive timestamp)
-			unk = &slayers.EndToEndOption{OptType: slayers.OptionType(200 + rng.Intn(40)), OptData: randBytes(rng, 1+rng.Intn(9))}
+			unk = &slayers.EndToEndOption{OptType: slayers.OptionType(200 + rng.Intn(40)), OptData: randBytes(rng, 6)} // fixed length: bit sweeps rely on one layout per case shape
 		}
 		if s.auth == nil && unk != nil {
 			e2e := slayers.EndToEndExtn{}
